@@ -268,11 +268,13 @@ func (ef *Filter) Process(ctx context.Context, e *eventlogger.Event) (*eventlogg
 						return nil, fmt.Errorf("%s: %w", op, err)
 					}
 				}
+				elem := payloadValue.Index(i)
 				if f.Kind() == reflect.Interface {
 					f = f.Elem()
 					if !f.IsValid() {
 						continue // nil interface
 					}
+					elem = f
 				}
 				if f.Kind() == reflect.Ptr {
 					f = f.Elem()
@@ -287,7 +289,9 @@ func (ef *Filter) Process(ctx context.Context, e *eventlogger.Event) (*eventlogg
 					// before ptrs are converted via f := f.Elem()
 					// this is required to match up with the fieldIsTaggable
 					// for tracking of maps
-					tm.trackMap(&tMap{value: payloadValue.Index(i)})
+					if err := tm.trackMap(&tMap{value: elem}); err != nil {
+						return nil, fmt.Errorf("%s: %w", op, err)
+					}
 				case fkind == reflect.Struct:
 					if err := ef.filterField(ctx, f, filterOverrides, tm, opts...); err != nil {
 						return nil, fmt.Errorf("%s: %w", op, err)
@@ -423,11 +427,13 @@ func (ef *Filter) filterField(ctx context.Context, v reflect.Value, filterOverri
 							return fmt.Errorf("%s: %w", op, err)
 						}
 					}
+					elem := field.Index(i)
 					if f.Kind() == reflect.Interface {
 						f = f.Elem()
 						if !f.IsValid() {
 							continue // nil interface
 						}
+						elem = f
 					}
 					if f.Kind() == reflect.Ptr {
 						f = f.Elem()
@@ -442,7 +448,9 @@ func (ef *Filter) filterField(ctx context.Context, v reflect.Value, filterOverri
 						// before ptrs are converted via f := f.Elem()
 						// this is required to match up with the fieldIsTaggable
 						// for tracking of maps
-						tm.trackMap(&tMap{value: field.Index(i)})
+						if err := tm.trackMap(&tMap{value: elem}); err != nil {
+							return fmt.Errorf("%s: %w", op, err)
+						}
 					case fkind == reflect.Struct:
 						if err := ef.filterField(ctx, f, filterOverrides, tm, opt...); err != nil {
 							return err
